@@ -26,7 +26,7 @@ CHECKS = {
               "order-independent) are refuted at witnesses and otherwise evaluated on the real implementation for every ordered pair of a "
               "600-type universe. Model tied to the real crate by 360k pairs x 11 functions + 2000 front-end programs per run."),
         design_ref="DESIGN.md section 6 C12/C13, section 10.3",
-        note=TB + "max_accepts_both / max order-independence are tested on all pairs of the universe, not proved. Intern equality = structural equality and FxHashMap = last-wins association list are assumed. Axioms: none.",
+        note=TB + "The re-inference pass (reinfer_expr) is not modelled; its panic is reported as a failing input. Intern equality = structural equality and FxHashMap = last-wins association list are assumed. Axioms: none.",
         technique="Coq proof (nested structural induction over types) + differential correspondence + law oracle on the implementation"),
     "C13": dict(
         category="proof",
@@ -37,6 +37,28 @@ CHECKS = {
         design_ref="DESIGN.md section 6 C12/C13, section 10.3",
         note=TB + "Value preservation of distinct<->underlying casts is a lowering fact covered by C08. Assignment and binary-operand positions are not generated at program level. Axioms: none.",
         technique="Coq proof (structural induction over types) + differential correspondence + law oracle on the implementation"),
+    "C17": dict(
+        category="proof",
+        text=("Coq theorems over ALL well-formed types and both pointer widths about the arm-for-arm model of codegen/layout.rs (u32 arithmetic "
+              "with explicit panic sites): align in {1,2,4,8}; struct offsets aligned, in order, non-overlapping, inside the size; array size = "
+              "len*stride; distinct/variant transparent; optional-of-pointer pointer-sized; enum/optional/error-union tag at max payload, size = "
+              "tag+1; stride = size rounded up; model = independent specification (C struct layout) whenever it returns, and it returns whenever "
+              "sizes fit u32. Unrestricted array rule refuted ([2^32]u8 has size 0). Tied to the real calc_layouts by exhaustive depth<=2 "
+              "enumeration + random depth 3 at 64/32 bit and to host gcc offsetof."),
+        design_ref="DESIGN.md section 6 C17, section 10.5",
+        note=TB + "LAYOUTS memo table not modelled (pure cache). Overflow = panic assumes the dev profile. Types are built from Ty constructors directly through a cfg hook. Axioms: none.",
+        technique="Coq proof (nested structural induction over types, refinement model->spec) + exhaustive/differential correspondence + rule oracle on the implementation + gcc comparison"),
+    "C18": dict(
+        category="proof",
+        text=("Coq theorems about the model of convert.rs type ids and the meta.capy readers: decoding recovers every field of a simple id "
+              "(finite bit-field domain, lifted by forallb); for all well-formed bit-packed types the asserts never fire and the id carries "
+              "the specified size/align/width/sign/mutability; simple-id injectivity refuted (isize/i64) and proved outside that class; "
+              "compound-id arithmetic. The to_type_id table walk is modelled and compared with the real code on <=30-type sequences; reflection "
+              "tables, offsets, type equality and any are checked end to end by generated programs run with the real capy against the C17 "
+              "specification and address arithmetic."),
+        design_ref="DESIGN.md section 6 C18, section 10.5",
+        note=TB + "Not proved (partial): the table/counter invariant of to_type_id, ty_info.rs emission and the any/type casts are covered by correspondence / end-to-end only (64-bit host). Axioms: none.",
+        technique="Coq proof (finite bit-field sweep lifted by forallb, case analysis) + differential correspondence + end-to-end reflection programs"),
     "C22": dict(
         category="proof",
         text=("Coq theorem: for EVERY input text the model lexer (reading of tokenizer.txt under Logos maximal munch + the "
